@@ -18,6 +18,7 @@ def dispatch (j : Json) : R (Json × Json) := do
   match fam with
   | "iter" => runIter j
   | "forest" => runForest j
+  | "lockstep" => runLockstep j
   | "nav" => runNav j
   | "walk" => runWalk j
   | "search" => runSearch j
